@@ -16,8 +16,10 @@ import (
 	"encoding/json"
 	"fmt"
 	"math/rand/v2"
+	"os"
 	"sort"
 	"strings"
+	"time"
 
 	"ariga.io/atlas/sql/mysql"
 	"ariga.io/atlas/sql/postgres"
@@ -44,6 +46,15 @@ type Case struct {
 	Perm    *Perm     `json:"perm,omitempty"`
 	Src     [2]string `json:"src"` // how the from / to graphs are obtained: "dsl" or "hcl"
 	API     string    `json:"api"` // schema | realm | table | legacy (SchemaDiff without DiffNormalized)
+	// Walk, when Edits is empty, asks the worker to draw the k-edit walk itself (pure function of the
+	// seed); the drawn ids are then stored in Edits, so a reported case is always explicit.
+	Walk *Walk `json:"walk,omitempty"`
+}
+
+// Walk is the recipe of a random k-edit walk.
+type Walk struct {
+	Seed uint64 `json:"seed"`
+	K    int    `json:"k"`
 }
 
 type result struct {
@@ -69,6 +80,7 @@ func differ(d dmodel.Dialect) schema.Differ {
 
 var pools = map[dmodel.Dialect][]*dmodel.Model{}
 var poolIdx = map[string]*dmodel.Model{}
+var poolCat = map[string]map[string]dmodel.Edit{} // catalogue of every pool model, by edit id
 
 func loadPools() {
 	if len(pools) > 0 {
@@ -78,6 +90,11 @@ func loadPools() {
 		pools[d] = dmodel.Pool(d)
 		for _, m := range pools[d] {
 			poolIdx[string(d)+"/"+m.Name] = m
+			byID := map[string]dmodel.Edit{}
+			for _, e := range dmodel.Catalogue(m) {
+				byID[e.ID] = e
+			}
+			poolCat[string(d)+"/"+m.Name] = byID
 		}
 	}
 }
@@ -97,7 +114,7 @@ func realmOf(s *schema.Schema) *schema.Realm {
 }
 
 // models resolves the (from, to) models of a case.
-func models(cs Case) (a, b *dmodel.Model, kinds []string, err error) {
+func models(cs Case, final *dmodel.Model) (a, b *dmodel.Model, kinds []string, err error) {
 	base := poolIdx[cs.Dialect+"/"+cs.Model]
 	if base == nil {
 		return nil, nil, nil, fmt.Errorf("unknown pool model %s/%s", cs.Dialect, cs.Model)
@@ -114,7 +131,12 @@ func models(cs Case) (a, b *dmodel.Model, kinds []string, err error) {
 		for _, id := range cs.Edits {
 			kinds = append(kinds, strings.SplitN(id, "|", 2)[0])
 		}
-		if cur, err = dmodel.Resolve(base, cs.Edits); err != nil {
+		if e, ok := poolCat[cs.Dialect+"/"+cs.Model][cs.Edits[0]]; final == nil && ok && len(cs.Edits) == 1 {
+			final = e.Apply(base)
+		}
+		if final != nil {
+			cur = final
+		} else if cur, err = dmodel.Resolve(base, cs.Edits); err != nil {
 			return nil, nil, nil, err
 		}
 		b = cur
@@ -133,10 +155,21 @@ func models(cs Case) (a, b *dmodel.Model, kinds []string, err error) {
 	return a, b, kinds, nil
 }
 
-func sig(ds []dmodel.Desc) string {
+// sig is the class of a set of missing / extra descriptors: their kinds and bit sets without names. A
+// column type change is qualified by its type class transition (e.g. {user->user}), so that a finding
+// about one family of types does not hide another.
+func sig(ds []dmodel.Desc, a, b *dmodel.Model) string {
 	set := map[string]bool{}
 	for _, d := range ds {
-		set[d.KindBits()] = true
+		k := d.KindBits()
+		if d.Kind == "ModifyColumn" && d.Bits&uint(schema.ChangeType) != 0 {
+			if ta, tb := a.Table(d.Table), b.Table(d.Table); ta != nil && tb != nil {
+				if ca, cb := ta.Column(d.Object), tb.Column(d.Object); ca != nil && cb != nil {
+					k += fmt.Sprintf("{%s->%s}", ca.Type.Class, cb.Type.Class)
+				}
+			}
+		}
+		set[k] = true
 	}
 	out := make([]string, 0, len(set))
 	for k := range set {
@@ -147,9 +180,9 @@ func sig(ds []dmodel.Desc) string {
 }
 
 // evaluate runs one case against the real differ and decides it.
-func evaluate(cs Case) (res result) {
+func evaluate(cs Case, final *dmodel.Model) (res result) {
 	d := dmodel.Dialect(cs.Dialect)
-	a, b, kinds, err := models(cs)
+	a, b, kinds, err := models(cs, final)
 	res.kinds = kinds
 	if err != nil {
 		return result{verdict: "harness", key: "HARNESS|case", what: err.Error()}
@@ -163,6 +196,12 @@ func evaluate(cs Case) (res result) {
 	}
 	if identity && len(res.want) != 0 {
 		return result{verdict: "harness", key: "HARNESS|identity-not-identical", what: fmt.Sprint(dmodel.DescStrings(res.want))}
+	}
+	// a model that HCL cannot express (NO INHERIT checks) is always built with the DSL.
+	for i, m := range []*dmodel.Model{a, b} {
+		if cs.Src[i] == "hcl" && !dmodel.HCLExpressible(m) {
+			cs.Src[i] = "dsl"
+		}
 	}
 	var from, to *schema.Schema
 	if from, err = graph(a, cs.Src[0]); err == nil {
@@ -217,7 +256,7 @@ func evaluate(cs Case) (res result) {
 			return res
 		}
 		res.verdict = "violated"
-		res.key = fmt.Sprintf("%s|%s|error", cs.Dialect, cs.API)
+		res.key = fmt.Sprintf("%s|%s|error", cs.Dialect, mode(cs))
 		res.what = "differ returned an error for a valid pair: " + res.errText
 		return res
 	}
@@ -231,9 +270,17 @@ func evaluate(cs Case) (res result) {
 		cl = "identity"
 	}
 	res.verdict = "violated"
-	res.key = fmt.Sprintf("%s|%s|%s|missing=%s|extra=%s", cs.Dialect, cs.API, cl, sig(missing), sig(extra))
+	res.key = fmt.Sprintf("%s|%s|%s|missing=%s|extra=%s", cs.Dialect, mode(cs), cl, sig(missing, a, b), sig(extra, a, b))
 	res.what = fmt.Sprintf("%s %s: change set differs from the reference: missing %v, extra %v", cs.Dialect, cs.Class, dmodel.DescStrings(missing), dmodel.DescStrings(extra))
 	return res
+}
+
+// mode is the comparison mode of a case: the CLI's normalized mode (whatever the entry point) or legacy.
+func mode(cs Case) string {
+	if cs.API == "legacy" {
+		return "legacy"
+	}
+	return "normalized"
 }
 
 // shrink drops edits of a walk one at a time while the case still fails with the same key.
@@ -244,7 +291,7 @@ func shrink(cs Case, key string) Case {
 			try := cs
 			try.Edits = append(append([]string(nil), cs.Edits[:i]...), cs.Edits[i+1:]...)
 			if p, _, _ := rt.Try(func() {
-				if r := evaluate(try); r.verdict == "violated" && r.key == key {
+				if r := evaluate(try, nil); r.verdict == "violated" && r.key == key {
 					cs, changed = try, true
 				}
 			}); p {
@@ -263,7 +310,7 @@ func detail(cs Case, res result) map[string]any {
 	if res.errText != "" {
 		det["error"] = res.errText
 	}
-	if a, b, _, err := models(cs); err == nil {
+	if a, b, _, err := models(cs, nil); err == nil {
 		det["from_hcl"] = dmodel.HCL(a)
 		det["to_hcl"] = dmodel.HCL(b)
 	}
@@ -277,7 +324,7 @@ func init() {
 		if err := json.Unmarshal(raw, &cs); err != nil {
 			panic(err)
 		}
-		res := evaluate(cs)
+		res := evaluate(cs, nil)
 		fmt.Println("case:    ", string(raw))
 		fmt.Println("expected:", dmodel.DescStrings(res.want))
 		fmt.Println("observed:", dmodel.DescStrings(res.got))
@@ -312,6 +359,14 @@ func generate(c *rt.Ctx) []Case {
 					return srcCombos[0]
 				}
 				return srcCombos[i%4]
+			}
+			// the HCL leg costs ~20x the DSL leg: edits use it on a fixed share of the instances.
+			share := c.Pick(12, 4)
+			esrc := func(i int) [2]string {
+				if !hclOK || i%share >= 3 {
+					return srcCombos[0]
+				}
+				return srcCombos[1+i%share]
 			}
 			id := func(sub string, src [2]string, api string, p *Perm) {
 				cases = append(cases, Case{Dialect: string(d), Model: m.Name, Class: "identity:" + sub, Src: src, API: api, Perm: p})
@@ -353,10 +408,10 @@ func generate(c *rt.Ctx) []Case {
 			}
 			// exhaustive single-edit slice, both directions.
 			for ei, e := range dmodel.Catalogue(m) {
-				cs := Case{Dialect: string(d), Model: m.Name, Class: "single", Edits: []string{e.ID}, Src: srcs(ei), API: "schema"}
+				cs := Case{Dialect: string(d), Model: m.Name, Class: "single", Edits: []string{e.ID}, Src: esrc(ei), API: "schema"}
 				cases = append(cases, cs)
 				rev := cs
-				rev.Class, rev.Src = "single-rev", srcs(ei/2%2)
+				rev.Class, rev.Src = "single-rev", esrc(ei+1)
 				cases = append(cases, rev)
 				if ei%5 == 0 {
 					x := cs
@@ -375,43 +430,56 @@ func generate(c *rt.Ctx) []Case {
 				}
 			}
 		}
-		// seeded random k-edit walks.
+		// seeded random k-edit walks: drawn by the workers (drawWalk) from these recipes.
 		walks, kmax := c.Pick(2500, 20000), c.Pick(6, 8)
 		r := c.Rand(0xC02, uint64(di))
 		for w := 0; w < walks; w++ {
 			m := pool[r.IntN(len(pool))]
-			k := 2 + r.IntN(kmax-1)
-			var ids []string
-			var fin *dmodel.Model
-			for try := 0; try < 8; try++ {
-				ids, _, fin = dmodel.RandomEdits(m, k, r)
-				if dmodel.Ambiguous(m, fin) == "" && dmodel.Ambiguous(fin, m) == "" {
-					break
-				}
-			}
-			cs := Case{Dialect: string(d), Model: m.Name, Class: "walk", Edits: ids, Src: srcCombos[0], API: "schema"}
-			if dmodel.HCLExpressible(m) && dmodel.HCLExpressible(fin) {
-				cs.Src = srcCombos[r.IntN(4)]
-			}
-			switch r.IntN(10) {
-			case 0:
-				cs.API = "realm"
-			case 1:
-				cs.API = "table"
-			case 2, 3, 4:
-				cs.Class = "walk-rev"
-			case 5:
-				cs.Perm = &Perm{Class: "all", Mode: "shuffle", Seed: r.Uint64(), Side: "to"}
-			}
-			cases = append(cases, cs)
+			cases = append(cases, Case{Dialect: string(d), Model: m.Name, Class: "walk", Src: srcCombos[0], API: "schema",
+				Walk: &Walk{Seed: r.Uint64(), K: 2 + r.IntN(kmax-1)}})
 		}
 	}
 	return cases
 }
 
+// drawWalk draws the walk of a recipe case and completes the case (edits, direction, sources, API).
+// hclShare: one walk in hclShare/3 obtains a graph through HCL (set by run from the tier).
+var hclShare = 12
+
+func drawWalk(cs Case) (Case, *dmodel.Model) {
+	m := poolIdx[cs.Dialect+"/"+cs.Model]
+	r := rand.New(rand.NewPCG(cs.Walk.Seed, 0xC02))
+	var ids []string
+	var fin *dmodel.Model
+	for try := 0; try < 8; try++ {
+		ids, _, fin = dmodel.RandomEdits(m, cs.Walk.K, r)
+		if dmodel.Ambiguous(m, fin) == "" && dmodel.Ambiguous(fin, m) == "" {
+			break
+		}
+	}
+	cs.Edits, cs.Walk = ids, nil
+	if x := r.IntN(hclShare); x < 3 && dmodel.HCLExpressible(m) && dmodel.HCLExpressible(fin) {
+		cs.Src = srcCombos[1+x]
+	}
+	switch r.IntN(10) {
+	case 0:
+		cs.API = "realm"
+	case 1:
+		cs.API = "table"
+	case 2, 3, 4:
+		cs.Class = "walk-rev"
+	case 5:
+		cs.Perm = &Perm{Class: "all", Mode: "shuffle", Seed: r.Uint64(), Side: "to"}
+	}
+	return cs, fin
+}
+
 func run(c *rt.Ctx) {
+	t0 := time.Now()
+	hclShare = c.Pick(12, 4)
 	loadPools()
 	cases := generate(c)
+	fmt.Fprintln(os.Stderr, "c02: generated", len(cases), "cases in", time.Since(t0))
 	// self-consistency of the two independent statements of the expectation: for every single edit the
 	// catalogue's descriptors must equal the reference differ's (a disagreement is a harness bug).
 	for _, d := range dmodel.Dialects {
@@ -431,10 +499,16 @@ func run(c *rt.Ctx) {
 			c.Count(string(d)+":pool-models", 1)
 		}
 	}
+	fmt.Fprintln(os.Stderr, "c02: catalogue self-check done at", time.Since(t0))
 	c.Par(len(cases), func(i int, w *rt.W) {
 		cs := cases[i]
 		w.Begin(cs)
-		res := evaluate(cs)
+		var fin *dmodel.Model
+		if cs.Walk != nil {
+			cs, fin = drawWalk(cs)
+			w.Begin(cs)
+		}
+		res := evaluate(cs, fin)
 		cl := cs.Class
 		if j := strings.Index(cl, ":"); j > 0 && cl != "identity:genname" && cl != "identity:self" {
 			cl = cl[:j] + ":" + cl[j+1:]
@@ -469,7 +543,7 @@ func run(c *rt.Ctx) {
 		if res.verdict == "violated" {
 			if strings.HasPrefix(cs.Class, "walk") {
 				cs = shrink(cs, res.key)
-				res = evaluate(cs)
+				res = evaluate(cs, nil)
 			}
 			c.Violation(res.key, res.what, cs, detail(cs, res))
 			return
@@ -478,6 +552,7 @@ func run(c *rt.Ctx) {
 			c.Sample(map[string]any{"case": cs, "expected": dmodel.DescStrings(res.want), "observed": dmodel.DescStrings(res.got), "verdict": "held"})
 		}
 	})
+	fmt.Fprintln(os.Stderr, "c02: cases done at", time.Since(t0))
 	c.Finish("flattened real change set of DefaultDiff.{SchemaDiff,RealmDiff,TableDiff}(from, to, DiffNormalized) == multiset of the model-level reference differ (kind, table, object, exact ChangeKind bits), for the exhaustive single-edit slice (both directions) of every pool model, seeded k-edit walks, and identity cases (same graph, DSL/HCL copies, permutation classes, generated index names, legacy mode) which must be empty; for single edits the catalogue's own expectation must agree with the reference. distinct = distinct (dialect, edit kinds, observed change multiset), non-trivial = non-empty observed change set",
 		map[string]any{"exhaustive": "single-edit slice of the catalogue on every pool model", "cases": len(cases)})
 }
